@@ -217,7 +217,12 @@ fn compile_output_block(
         .map(compile_value)
         .collect::<Result<Vec<_>, _>>()?;
 
-    let value = asset_math::aggregate_values(values);
+    let value = asset_math::try_aggregate_values(values).map_err(|_| {
+        Error::CoerceError(
+            "sum of amounts".to_string(),
+            "64-bit amount of one asset class".to_string(),
+        )
+    })?;
 
     let datum_option = ir.datum.as_option().map(compile_data_expr).transpose()?;
 
@@ -251,7 +256,14 @@ fn compile_mint_block(tx: &tir::Tx) -> Result<Option<primitives::Mint>, Error> {
         .map(|x| compile_native_asset_for_mint(x, false))
         .collect::<Result<Vec<_>, _>>()?;
 
-    let mints = asset_math::aggregate_assets(mints);
+    let overflow = |_| {
+        Error::CoerceError(
+            "sum of minted amounts".to_string(),
+            "non-zero 64-bit mint amount".to_string(),
+        )
+    };
+
+    let mints = asset_math::aggregate_assets(mints).map_err(overflow)?;
 
     let burns = tx
         .burns
@@ -263,10 +275,12 @@ fn compile_mint_block(tx: &tir::Tx) -> Result<Option<primitives::Mint>, Error> {
         .map(|x| compile_native_asset_for_mint(x, true))
         .collect::<Result<Vec<_>, _>>()?;
 
-    let burns = asset_math::aggregate_assets(burns);
+    let burns = asset_math::aggregate_assets(burns).map_err(overflow)?;
 
     let all = match (mints, burns) {
-        (Some(mints), Some(burns)) => asset_math::aggregate_assets([mints, burns]),
+        (Some(mints), Some(burns)) => {
+            asset_math::aggregate_assets([mints, burns]).map_err(overflow)?
+        }
         (Some(mints), None) => Some(mints),
         (None, Some(burns)) => Some(burns),
         (None, None) => None,
@@ -343,7 +357,12 @@ pub fn compile_cardano_publish_directive(
         .iter()
         .map(compile_value)
         .collect::<Result<Vec<_>, _>>()?;
-    let value = asset_math::aggregate_values(values);
+    let value = asset_math::try_aggregate_values(values).map_err(|_| {
+        Error::CoerceError(
+            "sum of amounts".to_string(),
+            "64-bit amount of one asset class".to_string(),
+        )
+    })?;
 
     let datum_option = adhoc.data.get("datum").map(compile_data_expr).transpose()?;
 
